@@ -39,6 +39,20 @@ SITES = [
 ]
 
 
+# constants that have a NAME in the source: read by EXECUTION (the translation unit is included textually and the value printed), so that
+# the form of the definition (#define, static const, constexpr, enum) does not matter.  Lean name -> C++ expression
+NAMED = [
+    ('addressClaimTimeoutMs', 'N2kAddressClaimTimeout'), ('tpMaxFrames', 'TP_MAX_FRAMES'), ('tpCm', 'TP_CM'), ('tpDt', 'TP_DT'),
+    ('tpCmBam', 'TP_CM_BAM'), ('tpCmRts', 'TP_CM_RTS'), ('tpCmCts', 'TP_CM_CTS'), ('tpCmAck', 'TP_CM_ACK'), ('tpCmAbort', 'TP_CM_Abort'),
+    ('maxPgnsInList', 'MAX_PGNS_IN_LIST'), ('heartbeatDefaultIntervalMs', 'DefaultHeartbeatInterval'), ('msgBufTimeMs', 'Max_N2kMsgBuf_Time'),
+    ('maxCanBusAddress', 'N2kMaxCanBusAddress'), ('nullCanBusAddress', 'N2kNullCanBusAddress'), ('maxModelIdLen', 'Max_N2kModelID_len'),
+    ('maxSwCodeLen', 'Max_N2kSwCode_len'), ('maxModelVersionLen', 'Max_N2kModelVersion_len'),
+    ('maxModelSerialCodeLen', 'Max_N2kModelSerialCode_len'), ('maxConfigurationInfoFieldLen', 'Max_N2kConfigurationInfoField_len'),
+    ('maxDataLen', 'tN2kMsg::MaxDataLen'), ('actisenseReaderBufLen', 'MAX_STREAM_MSG_BUF_LEN'), ('maxBusDevices', 'N2kMaxBusDevices'),
+]
+DEPS = ['N2kMsg.cpp', 'N2kStream.cpp', 'N2kTimer.cpp', 'N2kGroupFunction.cpp', 'N2kGroupFunctionDefaultHandlers.cpp', 'N2kMessages.cpp']
+
+
 def num(tok):
     m = re.fullmatch(r'(0[xX][0-9a-fA-F]+|\d+)[uUlL]*', tok)
     if not m:
@@ -46,24 +60,84 @@ def num(tok):
     return int(m.group(1), 0)
 
 
+def by_execution(src):
+    """-> {lean name: value} for the NAMED constants that exist; names the compiler does not know are dropped one by one"""
+    import subprocess, tempfile, hashlib
+    h = hashlib.sha256()
+    for fn in sorted(os.listdir(src)):
+        if fn.endswith(('.h', '.tpp', '.cpp')):
+            h.update(fn.encode()); h.update(open(os.path.join(src, fn), 'rb').read())
+    h.update(repr(NAMED).encode())
+    cache_dir = os.path.join(os.path.dirname(os.path.abspath(__file__)), '..', '..', 'build', 'translate')
+    os.makedirs(cache_dir, exist_ok=True)
+    cache = os.path.join(cache_dir, 'constants_%s.txt' % h.hexdigest()[:24])
+    if os.path.exists(cache):
+        return dict((l.split('=')[0], int(l.split('=')[1])) for l in open(cache).read().split('\n') if '=' in l)
+    names = list(NAMED)
+    out = None
+    with tempfile.TemporaryDirectory() as td:
+        for _ in range(len(NAMED) + 1):
+            prog = ['#include "NMEA2000.cpp"', '#include "ActisenseReader.h"', '#include "N2kDeviceList.h"', '#include <stdio.h>', 'int main() {']
+            prog += ['  printf("%s=%%llu\\n", (unsigned long long)(%s));' % (ln, cx) for ln, cx in names]
+            prog += ['  return 0; }']
+            cpp = os.path.join(td, 'c.cpp'); exe = os.path.join(td, 'c')
+            open(cpp, 'w').write('\n'.join(prog) + '\n')
+            r = subprocess.run(['g++', '-std=c++11', '-O0', '-w', '-I' + src, cpp] + [os.path.join(src, d) for d in DEPS] + ['-o', exe],
+                               stdout=subprocess.PIPE, stderr=subprocess.STDOUT, text=True)
+            if r.returncode == 0:
+                rr = subprocess.run([exe], stdout=subprocess.PIPE, text=True, timeout=60)
+                out = rr.stdout
+                break
+            bad = set(re.findall(r"c\.cpp:(\d+):", r.stdout))
+            drop = [names[int(b) - 6] for b in bad if 6 <= int(b) < 6 + len(names)]
+            if not drop:
+                raise RuntimeError('constant extraction program does not compile: ' + r.stdout[-500:])
+            names = [n for n in names if n not in drop]
+    if out is None:
+        raise RuntimeError('constant extraction failed')
+    tmp = cache + '.%d' % os.getpid()
+    open(tmp, 'w').write(out)
+    os.replace(tmp, cache)
+    return dict((l.split('=')[0], int(l.split('=')[1])) for l in out.split('\n') if '=' in l)
+
+
 def run(src, gendir):
-    cache = {}
-    out = ['/-! GENERATED by tools/translators/constants.py from /repo/src on every run. Do not edit. -/',
-           'namespace N2k.Gen.Const', '']
+    """Named constants by execution; the regex reading of SITES is the cross-check for those and the only source for literals that
+    have no name in the source (those are best effort: a literal the regex no longer finds is left out of the generated file, and only
+    an obligation that mentions it - none at present - would then fail to build)."""
+    vals = by_execution(src)
+    cache, textual, missing, disagree = {}, 0, [], []
     for name, fn, rx in SITES:
-        if fn not in cache:
-            cache[fn] = open(os.path.join(src, fn)).read()
-        ms = re.findall(rx, cache[fn])
-        if len(ms) != 1:
-            raise RuntimeError('%s: expected exactly one match of %r in %s, found %d' % (name, rx, fn, len(ms)))
-        out.append('def %s : Nat := %d' % (name, num(ms[0])))
+        try:
+            if fn not in cache:
+                cache[fn] = open(os.path.join(src, fn)).read()
+            ms = re.findall(rx, cache[fn])
+            v = num(ms[0]) if len(ms) == 1 else None
+        except Exception:
+            v = None
+        if v is None:
+            if name not in vals:
+                missing.append(name)
+            continue
+        textual += 1
+        if name in vals and vals[name] != v:
+            disagree.append(name)
+        vals.setdefault(name, v)
+    if disagree:
+        raise RuntimeError('textual and executed readings differ for ' + ', '.join(disagree))
+    out = ['/-! GENERATED by tools/translators/constants.py from /repo/src on every run (named constants are read by executing the',
+           'translation unit, unnamed literals by pattern). Do not edit. -/', 'namespace N2k.Gen.Const', '']
+    for name, _, _ in SITES:
+        if name in vals:
+            out.append('def %s : Nat := %d' % (name, vals[name]))
     out += ['', 'end N2k.Gen.Const', '']
     os.makedirs(gendir, exist_ok=True)
     path = os.path.join(gendir, 'Constants.lean')
     new = '\n'.join(out)
     if not os.path.exists(path) or open(path).read() != new:
         open(path, 'w').write(new)
-    return {'items_translated': len(SITES), 'fallbacks': 0, 'obligations': 0}
+    return {'items_translated': len(vals), 'fallbacks': 0, 'obligations': 0, 'method': 'execution (named) + pattern (literals)',
+            'textual_cross_check_agree': textual, 'not_found': missing}
 
 
 if __name__ == '__main__':
